@@ -275,10 +275,17 @@ def check(prog, run):
                 if carried:
                     continue
                 bad = []
+                # single-assignment locals bound to a plain attribute chain are aliases of that chain
+                alias = {}
+                for x in own_nodes(f.node):
+                    if isinstance(x, ast.Assign) and len(x.targets) == 1 and isinstance(x.targets[0], ast.Name) and isinstance(x.value, ast.Attribute):
+                        alias.setdefault(x.targets[0].id, []).append(x.value)
                 for g in guards:
                     for name in boolx.atoms(g):
                         e = ast.parse(name, mode="eval").body
                         subj = e.left if isinstance(e, ast.Compare) else e
+                        if isinstance(subj, ast.Name) and len(alias.get(subj.id, [])) == 1:
+                            subj = alias[subj.id][0]
                         root = subj
                         while isinstance(root, ast.Attribute):
                             root = root.value
